@@ -17,7 +17,8 @@ if ov is None:
     sys.exit("patch does not apply")
 for pid in pids:
     chk = check_mod.run_property(pid, "quick", repo=base.with_overlay(ov), quiet=True)
-    bad = [o for o in chk.obligations if not o.ok]
+    known = chk._known()
+    bad = [o for o in chk.obligations if not o.ok and not any(e.get("rule") == o.rule and e.get("construct") and e["construct"] in o.key for e in known)]
     for rid, r in chk.rules.items():
         if r["instances"] < r["floor"]:
             chk.inconclusive.append(f"{rid}: floor ({r['instances']} < {r['floor']})")
